@@ -2,7 +2,7 @@
    pass the boolean checker (by reflection), hence the generic theorems of
    LayoutFacts.v hold for each of the 26 record types. *)
 From Coq Require Import String List NArith ZArith Bool.
-From ACH Require Import LayoutOk FieldsFacts LayoutFacts Layouts.
+From ACH Require Import LayoutOk FieldsFacts LayoutFacts LayoutRoundtrip Layouts.
 Import ListNotations.
 Local Open Scope string_scope.
 
@@ -55,6 +55,12 @@ Theorem C01_reparse_fixed L r : In L all_layouts -> fitsb L r = true -> stableb 
   render L (overlay (parse L (render L r)) r) = render L r.
 Proof. intros H. apply reparse_fixed. now apply layout_ok_in. Qed.
 
+(* value-level round trip: a field read back from its own columns returns the record's value *)
+Theorem C01_parse_render_value L r s f c : In L all_layouts -> fitsb L r = true -> canonb L r = true ->
+  In s (l_segs L) -> simple_field s = Some f -> find_key (l_cuts L) f = Some c -> c_const c = None ->
+  lookup (parse L (render L r)) f = canon_value s r.
+Proof. intros H. apply parse_render_value. now apply layout_ok_in. Qed.
+
 (* ---- non-vacuity on the generated tables ---- *)
 
 Definition bs := bytes_of_string.
@@ -68,7 +74,7 @@ Definition ed_record : recval :=
   ; ("TraceNumber", VS (bs "121042880000001")) ].
 
 Example ed_in : In L_EntryDetail all_layouts.
-Proof. vm_compute. tauto. Qed.
+Proof. unfold all_layouts. repeat (first [left; reflexivity | right]). Qed.
 Example ed_fits : fitsb L_EntryDetail ed_record = true.
 Proof. vm_compute. reflexivity. Qed.
 Example ed_stable : stableb L_EntryDetail ed_record = true.
@@ -90,7 +96,7 @@ Definition fh_record : recval :=
   ; ("ReferenceCode", VS (bs "")) ].
 
 Example fh_in : In L_FileHeader all_layouts.
-Proof. vm_compute. tauto. Qed.
+Proof. unfold all_layouts. repeat (first [left; reflexivity | right]). Qed.
 Example fh_fits : fitsb L_FileHeader fh_record = true.
 Proof. vm_compute. reflexivity. Qed.
 Example fh_stable : stableb L_FileHeader fh_record = true.
@@ -109,7 +115,7 @@ Definition bh_record : recval :=
   ; ("OriginatorStatusCode", VI 1); ("ODFIIdentification", VS (bs "12104288")); ("BatchNumber", VI 1) ].
 
 Example bh_in : In L_BatchHeader all_layouts.
-Proof. vm_compute. tauto. Qed.
+Proof. unfold all_layouts. repeat (first [left; reflexivity | right]). Qed.
 Example bh_fits : fitsb L_BatchHeader bh_record = true.
 Proof. vm_compute. reflexivity. Qed.
 Example bh_stable : stableb L_BatchHeader bh_record = true.
@@ -146,9 +152,23 @@ Lemma bh_autoenroll_refuted :
     <> render L_BatchHeader bh_enr_record.
 Proof. vm_compute. repeat split; discriminate. Qed.
 
-(* invalid UTF-8 in adjacent full-width fields merges into one rune: the width
-   hypothesis [wf_utf8] of C02 is needed (Addenda10: Name of 35 runes ending
-   in a lone lead byte, followed by ... *)
+(* the well-formedness hypothesis of C02 is needed: two adjacent full-width
+   fields, the first ending in a lone UTF-8 lead byte (0xC3), the second
+   starting with a continuation byte (0xA9): each counts 35 runes, nothing is
+   padded or truncated, and in the record the two bytes merge into one rune *)
+Definition a11_record : recval :=
+  [ ("TypeCode", VS (bs "11"))
+  ; ("OriginatorName", VS (repeat 65%N 34 ++ [195]%N)%list)
+  ; ("OriginatorStreetAddress", VS ([169]%N ++ repeat 66%N 34)%list)
+  ; ("EntryDetailSequenceNumber", VI 1) ].
+
+Lemma a11_invalid_utf8_width :
+  rune_count (gets a11_record "OriginatorName") = 35%nat /\
+  rune_count (gets a11_record "OriginatorStreetAddress") = 35%nat /\
+  widthb L_Addenda11 a11_record = false /\
+  length (render L_Addenda11 a11_record) = 94%nat /\
+  rune_count (render L_Addenda11 a11_record) = 93%nat.
+Proof. vm_compute. repeat split; reflexivity. Qed.
 
 Print Assumptions all_layouts_ok.
 Print Assumptions C02_record_width.
@@ -156,3 +176,4 @@ Print Assumptions C02_record_wf.
 Print Assumptions C01_parse_render.
 Print Assumptions C01_parse_render_fields.
 Print Assumptions C01_reparse_fixed.
+Print Assumptions C01_parse_render_value.
